@@ -702,4 +702,74 @@ theorem addTriangle_eq_triCount (n : Nat) (hn : Pixman.Lemmas.TrapRows.Depth n) 
     rw [← ht]
     simp [px, addTri, hρ, hc]
 
+/-! ### `pixman_add_traps`: lists -/
+
+theorem addTrap_nothing (n : Nat) (hn : Pixman.Lemmas.TrapRows.Depth n) (img : Img) (hwf : ImgWF n img)
+    (hh : img.height ≤ 32767) (tr : Trap)
+    (hc : InI32 tr.topL ∧ InI32 tr.topR ∧ InI32 tr.topY ∧ InI32 tr.botL ∧ InI32 tr.botR ∧ InI32 tr.botY)
+    (hbt : lastRow n img.height tr.botY < firstRow n tr.topY) :
+    addTrap n img 0 0 tr = img ∧ addShape n img.width img.height img.rows (trapShape tr) = img.rows := by
+  obtain ⟨c1, c2, c3, c4, c5, c6⟩ := hc
+  constructor
+  · have hsetup : trapSetup n img.height 0 0 tr = none := by
+      simp only [trapSetup, wrap32_add_zero _ c1, wrap32_add_zero _ c2, wrap32_add_zero _ c3, wrap32_add_zero _ c4,
+        wrap32_add_zero _ c5, wrap32_add_zero _ c6]
+      have hbt' := hbt
+      simp only [firstRow, lastRow] at hbt'
+      rw [if_neg (by omega)]
+    simp only [addTrap, hsetup]
+  · exact addShape_of_no_rows n hn img hwf _ (no_rows n hn img.height hh tr.topY tr.botY c3 c6 hbt)
+
+/-- a `pixman_trap_t` in the region where the rasteriser is exact (offsets 0) -/
+def TrapExact (n : Nat) (height : Nat) (tr : Trap) : Prop :=
+  (InI32 tr.topL ∧ InI32 tr.topR ∧ InI32 tr.topY ∧ InI32 tr.botL ∧ InI32 tr.botR ∧ InI32 tr.botY) ∧
+  (lastRow n height tr.botY < firstRow n tr.topY ∨
+   (lastRow n height tr.botY ≥ firstRow n tr.topY ∧
+    InitOK n (firstRow n tr.topY) (trapShape tr).left ∧ InitOK n (firstRow n tr.topY) (trapShape tr).right ∧
+    RowsOK n (firstRow n tr.topY) (lastRow n height tr.botY) (trapShape tr).left ∧
+    RowsOK n (firstRow n tr.topY) (lastRow n height tr.botY) (trapShape tr).right ∧
+    X1Ok n (firstRow n tr.topY) (lastRow n height tr.botY) (trapShape tr).left.snapX (trapShape tr).right.snapX))
+
+theorem addTrap_exact (n : Nat) (hn : Pixman.Lemmas.TrapRows.Depth n) (img : Img) (hwf : ImgWF n img)
+    (hh : img.height ≤ 32767) (tr : Trap) (h : TrapExact n img.height tr) :
+    addTrap n img 0 0 tr = { img with rows := addShape n img.width img.height img.rows (trapShape tr) } := by
+  obtain ⟨h1, h2⟩ := h
+  rcases h2 with h2 | ⟨hbt, a1, a2, a3, a4, a5⟩
+  · obtain ⟨e1, e2⟩ := addTrap_nothing n hn img hwf hh tr h1 h2
+    rw [e1, e2]
+  · exact addTrap_eq_addShape n hn img hwf hh tr h1 hbt a1 a2 a3 a4 a5
+
+/-- `pixman_add_traps (image, 0, 0, n, traps)` = adding the Spec counts of the traps one after the other -/
+theorem addTraps_eq_addShapes (n : Nat) (hn : Pixman.Lemmas.TrapRows.Depth n) (traps : List Trap) :
+    ∀ (img : Img), ImgWF n img → img.height ≤ 32767 → (∀ tr ∈ traps, TrapExact n img.height tr) →
+      addTraps n img 0 0 traps =
+        { img with rows := traps.foldl (fun rows tr => addShape n img.width img.height rows (trapShape tr)) img.rows } := by
+  induction traps with
+  | nil => intro img _ _ _; rfl
+  | cons tr rest ih =>
+    intro img hwf hh hall
+    have hw : wrap16 0 = 0 := by decide
+    simp only [addTraps, hw, intToFixed_zero, List.foldl_cons] at ih ⊢
+    rw [addTrap_exact n hn img hwf hh tr (hall tr (List.mem_cons_self ..))]
+    have := ih { img with rows := addShape n img.width img.height img.rows (trapShape tr) }
+      (imgWF_addShape n img hwf _) hh (fun t ht => hall t (List.mem_cons_of_mem _ ht))
+    simp only at this
+    exact this
+
+/-- the `pixman_trap_t` moved by `(dx, dy)` -/
+def moveTrap (tr : Trap) (dx dy : Int) : Trap :=
+  ⟨tr.topL + dx, tr.topR + dx, tr.topY + dy, tr.botL + dx, tr.botR + dx, tr.botY + dy⟩
+
+/-- fixed-point offsets that do not wrap: one iteration of `pixman_add_traps` rasterises the moved trap -/
+theorem addTrap_offsets (n : Nat) (img : Img) (tr : Trap) (xo yo : Int)
+    (hc : InI32 (tr.topL + xo) ∧ InI32 (tr.topR + xo) ∧ InI32 (tr.topY + yo) ∧ InI32 (tr.botL + xo) ∧
+          InI32 (tr.botR + xo) ∧ InI32 (tr.botY + yo)) :
+    addTrap n img xo yo tr = addTrap n img 0 0 (moveTrap tr xo yo) := by
+  obtain ⟨c1, c2, c3, c4, c5, c6⟩ := hc
+  have hs : trapSetup n img.height xo yo tr = trapSetup n img.height 0 0 (moveTrap tr xo yo) := by
+    simp only [trapSetup, moveTrap, wrap32_add_zero _ c1, wrap32_add_zero _ c2, wrap32_add_zero _ c3,
+      wrap32_add_zero _ c4, wrap32_add_zero _ c5, wrap32_add_zero _ c6, wrap32_id _ c1.1 c1.2, wrap32_id _ c2.1 c2.2,
+      wrap32_id _ c3.1 c3.2, wrap32_id _ c4.1 c4.2, wrap32_id _ c5.1 c5.2, wrap32_id _ c6.1 c6.2]
+  simp only [addTrap, hs]
+
 end Pixman.Lemmas.TrapSetup
